@@ -42,6 +42,8 @@ VAR0 = {"entry": "data",        # Reader(<data file>) | "meta": Reader(<metadata
         "keeparg": "explicit",  # keep_original=True passed | "default": left out
         "scratchdir": "exists",  # scratch directory there | "missing": neither it nor its parent exists (all scratch names absent)
         "siblings": False,      # files of another recording (lf band, second probe) in the same directory
+        "leftover": 0,          # what an incomplete ("P") leftover looks like: 0 shorter than the complete file | 1 of exactly
+                                # its size (last byte differs) | 2 longer (complete file followed by more bytes)
         "here": False,          # decompress_to_scratch(scratch_dir=None): the copy goes next to the compressed file
         "prior": None}          # earlier call on the same Reader object: {"op", "keep", "fail_at", "between"}
 
@@ -49,7 +51,7 @@ VAR0 = {"entry": "data",        # Reader(<data file>) | "meta": Reader(<metadata
 def draw_var(vr, **fixed):
     v = dict(VAR0, entry=vr.choice(["data", "meta"]), pathtype=vr.choice(["path", "str"]),
              obj=vr.choice(["open", "open", "unopened", "closed"]), keeparg=vr.choice(["explicit", "default"]),
-             scratchdir=vr.choice(["exists", "missing"]), siblings=vr.random() < 0.5)
+             scratchdir=vr.choice(["exists", "missing"]), siblings=vr.random() < 0.5, leftover=vr.randrange(3))
     v.update(fixed)
     return v
 
@@ -68,6 +70,8 @@ class World:
         self.nc = nsites + 1
         sites = metagen.dense_sites("3B2")[:nsites]
         self.meta_text, _ = metagen.make_meta("3B2", sites, ns=ns)
+        # metadata of the other recordings that may lie in the same directory: other gains (other volts per sample)
+        self.other_meta_text, _ = metagen.make_meta("3B2", sites, ns=ns, gains=[(250, 125)] * nsites)
         self.data = metagen.random_int16(rng, ns, self.nc)
         self.stale = metagen.random_int16(rng, ns, self.nc)
         self.kw = dict(chunk_duration=CHUNK / self.fs, n_threads=1)
@@ -81,6 +85,9 @@ class World:
                              n_channels=self.nc, dtype=np.int16, **self.kw)
             self.ref[tag] = {"bin": b.read_bytes(), "cbin": b.with_suffix(".cbin").read_bytes(),
                              "ch": json.loads(b.with_suffix(".ch").read_text())}
+        import spikeglx
+        with spikeglx.Reader(self.root / "refC" / f"{STEM}.bin") as sr:      # the recording's own directory, nothing else in it
+            self.s2v = np.array(sr.sample2volts)
 
     def paths(self, d, here=False):
         d = Path(d)
@@ -95,7 +102,7 @@ class World:
                 "cbin_tmp": d / f"{STEM}.cbin_tmp", "sbin": sd / f"{STEM}.bin",
                 "stmp": sd / f"{STEM}.bin_temp", "smeta": sd / f"{STEM}.meta"}
 
-    def setup(self, d, st, here=False, siblings=False, scratchdir="exists"):
+    def setup(self, d, st, here=False, siblings=False, scratchdir="exists", leftover=0):
         d = Path(d)
         if d.exists():
             shutil.rmtree(d)
@@ -106,26 +113,34 @@ class World:
         elif scratchdir == "exists" or any(st[n] != "A" for n in ("sbin", "stmp", "smeta")):
             p["sbin"].parent.mkdir(parents=True)
         if siblings:
-            # another (stale) recording of the same session: the lf band of this probe, the ap band of a second probe
-            for stem2 in (STEM.replace(".ap", ".lf"), STEM.replace("imec0", "imec1")):
-                (d / f"{stem2}.bin").write_bytes(self.ref["S"]["bin"])
-                (d / f"{stem2}.cbin").write_bytes(self.ref["S"]["cbin"])
-                (d / f"{stem2}.ch").write_text(json.dumps(self.ref["S"]["ch"], indent=2, sort_keys=True))
-                (d / f"{stem2}.meta").write_text(self.meta_text)
-        garbage = self.ref["C"]["cbin"][: max(1, len(self.ref["C"]["cbin"]) // 3)]
+            self.sibling(d, STEM.replace(".ap", ".lf"))
+        def partial(b, short):
+            return short if leftover == 0 else b[:-1] + bytes([b[-1] ^ 0x55]) if leftover == 1 else b + b[:3]
+        garbage = partial(self.ref["C"]["cbin"], self.ref["C"]["cbin"][: max(1, len(self.ref["C"]["cbin"]) // 3)])
+        pbin = partial(self.ref["C"]["bin"], self.ref["C"]["bin"][:-3])
         for n in NAMES:
             s = st[n]
             if s == "A":
                 continue
             if n in ("bin", "sbin", "stmp"):
-                p[n].write_bytes(self.ref["C"]["bin"] if s == "C" else self.ref["C"]["bin"][:-3] if s == "P" else self.ref["S"]["bin"])
+                p[n].write_bytes(self.ref["C"]["bin"] if s == "C" else pbin if s == "P" else self.ref["S"]["bin"])
             elif n in ("cbin", "cbin_tmp"):
                 p[n].write_bytes(self.ref[s]["cbin"] if s in "CS" else garbage)
             elif n == "ch":
                 p[n].write_text(json.dumps(self.ref[s]["ch"], indent=2, sort_keys=True) if s in "CS" else "{")
             else:
                 p[n].write_text(self.meta_text)
+        if siblings:
+            self.sibling(d, STEM.replace("imec0", "imec1"))
         return p
+
+    def sibling(self, d, stem2, tag=""):
+        """another (stale) recording of the same session in the same directory: the lf band of this probe (created before the
+        files of the recording), the ap band of a second probe (created after them)"""
+        (d / f"{stem2}{tag}.bin").write_bytes(self.ref["S"]["bin"])
+        (d / f"{stem2}{tag}.cbin").write_bytes(self.ref["S"]["cbin"])
+        (d / f"{stem2}{tag}.ch").write_text(json.dumps(self.ref["S"]["ch"], indent=2, sort_keys=True))
+        (d / f"{stem2}{tag}.meta").write_text(self.other_meta_text)
 
     def project(self, d, here=False):
         p = self.paths(d, here)
@@ -288,7 +303,7 @@ def one_call(world, d, st, opname, keep, fail_at, var=None):
     here = bool(var["here"])
     if here and opname != "scratch":
         raise tlc.TLCError("scratch-here mapping is for decompress_to_scratch only")
-    p = world.setup(d, st, here=here, siblings=var["siblings"], scratchdir=var["scratchdir"])
+    p = world.setup(d, st, here=here, siblings=var["siblings"], scratchdir=var["scratchdir"], leftover=var["leftover"])
     rec = {"op": opname, "keep": bool(keep), "exc": "", "steps": [], "pre": st, "fail_at": fail_at, "ns": world.ns,
            "resolved": {"bin": "skip", "cbin": "skip", "meta": "skip"}, "reopen": "skip", "var": var}
     sr = None
@@ -311,6 +326,14 @@ def one_call(world, d, st, opname, keep, fail_at, var=None):
         if prior.get("between") == "rm_bin":
             p["bin"].unlink(missing_ok=True)        # somebody removes the file that made the first call decline
     entry_fs = world.project(d, here)
+    if prior and not (entry_fs["bin"] == "C" if opname == "compress" else (entry_fs["cbin"] == "C" and entry_fs["ch"] == "C")):
+        # what the first call left is not a directory the second call is defined on (CStart / DStart / SStart of the model:
+        # e.g. interrupted between the removal of the .cbin and of its header)
+        try:
+            sr.close()
+        except Exception:
+            pass
+        return None
     with instrumented(world, d, opname, fail_at, here) as steps:
         try:
             if sr is None:
@@ -345,8 +368,8 @@ def one_call(world, d, st, opname, keep, fail_at, var=None):
                     sr.close()
             except Exception:
                 pass
-    if fail_at is not None and not any(s["pt"] == "fail" for s in steps):
-        return None          # the call has no such operation
+    if fail_at is not None and not any(s["pt"] == "fail" and s.get("at") for s in steps):
+        return None          # the call has no such operation (or ended on its own before it: seen by the run without a fault)
     steps.append({"pt": "end", "fs": world.project(d, here)})
     if steps[0]["fs"] != entry_fs:
         # the directory changed through an operation that is not instrumented: a step of its own (not a step of the
@@ -378,8 +401,8 @@ def resolve_record(world, d, st, var=None):
                 res[e] = "none"
             else:
                 name = "cbin" if str(fb).endswith(".cbin") else "bin"
-                same = sr.shape == (world.ns, world.nc) and np.array_equal(
-                    sr[:, :], world.data.astype(np.float32) * sr.sample2volts[None, :])
+                same = sr.shape == (world.ns, world.nc) and np.array_equal(sr.sample2volts, world.s2v) and np.array_equal(
+                    sr[:, :], world.data.astype(np.float32) * world.s2v[None, :])
                 res[e] = name if same else "wrong"
                 sr.close()
         except Exception as ex:
@@ -443,6 +466,63 @@ def report(ctx, traces, verdicts):
                            f"spec/sys/Compress.tla at that point")
 
 
+def varsig(var):
+    return json.dumps({k: v for k, v in var.items() if v != VAR0[k]}, sort_keys=True)
+
+
+def enumerate_faults(ctx, traces, world, d, st, opname, keep, mkvar):
+    """the call without a fault, then with a fault injected at its 1st, 2nd, ... file operation until it has no further one;
+    returns the number of file operations of the call"""
+    fail_at = None
+    while True:
+        var = mkvar(fail_at)
+        t = one_call(world, d, st, opname, keep, fail_at, var)
+        if t is None:
+            return fail_at
+        traces.append(t)
+        ctx.count(1, key=(world.ns, opname, keep, fail_at, json.dumps(st, sort_keys=True), varsig(var)))
+        fail_at = 0 if fail_at is None else fail_at + 1
+        if fail_at > 40:
+            raise tlc.TLCError("runaway fault enumeration")
+
+
+def histories(ctx, traces, world, d, st, opname, keep, nops, vr, fixed):
+    """same-object histories: the recorded call is the second call of a Reader whose first call (opname, keep) was
+    interrupted at a file operation / was refused / completed.  Judged like every other call (one trace per recorded call;
+    the directory it starts from is whatever the first call left)."""
+    todo = []
+    if nops:
+        # interrupted, then the same call again on the same object
+        todo.append(({"op": opname, "keep": keep, "fail_at": vr.randrange(nops)}, opname, keep))
+    elif opname == "decompress" and st["bin"] != "A":
+        # refused because a .bin was in the way; it goes away; the same object is asked again
+        todo.append(({"op": opname, "keep": keep, "fail_at": None, "between": "rm_bin"}, opname, keep))
+    # completed, then the call that fits the form the object now points to
+    if opname == "compress":
+        nxt = ("compress" if keep else "decompress", vr.random() < 0.5)
+    elif opname == "decompress":
+        nxt = ("scratch", True) if keep else ("compress", vr.random() < 0.5)
+    else:
+        nxt = ("scratch", True) if fixed.get("here") else ("decompress", vr.random() < 0.5)
+    if nops:
+        todo.append(({"op": opname, "keep": keep, "fail_at": None}, nxt[0], nxt[1]))
+    for prior, op2, keep2 in todo:
+        var = draw_var(vr, prior=prior, **fixed)
+        t = one_call(world, d, st, op2, keep2, None, var)
+        if t is None:
+            continue
+        traces.append(t)
+        ctx.count(1, key=(world.ns, op2, keep2, None, json.dumps(st, sort_keys=True), varsig(var)))
+        n2 = sum(1 for s_ in t["steps"] if s_["pt"] not in ("return", "end", "fail", "refuse", "nocopy", "unseen"))
+        if n2 and not ctx.quick:
+            # ... and the second call interrupted as well
+            fa = vr.randrange(n2)
+            t = one_call(world, d, st, op2, keep2, fa, var)
+            if t is not None:
+                traces.append(t)
+                ctx.count(1, key=(world.ns, op2, keep2, fa, json.dumps(st, sort_keys=True), varsig(var)))
+
+
 def run(ctx):
     import logging
     import mtscomp
@@ -468,10 +548,18 @@ def run(ctx):
     inits = json.loads(out.read_text())
     traces = []
     lens = [12, 3, 7] if ctx.quick else [12, 3, 7, 14, 5, 10]
+    vr = random.Random(ctx.seed * 7919 + 11)        # how the calls are made (VAR) and which histories are added
     for li, ns in enumerate(lens):
         world = World(Path(ctx.scratch) / f"w{ns}", ns, rng)
-        d = Path(ctx.scratch) / f"dir{ns}"
+        # directory names that contain the suffixes the code looks for
+        d = Path(ctx.scratch) / (f"dir{ns}" if li == 0 else f"rec{ns}.cbin" if li % 2 else f"x{ns}.bin.meta")
         pres = inits if li == 0 else random.Random(ctx.seed + ns).sample(inits, 8 if ctx.quick else 16)
+
+        def mkvar(fail_at, li=li, **fixed):
+            # first world: the plain call as it always was for the run without a fault, a drawn variant for each faulted
+            # run; other worlds: drawn variants throughout
+            return dict(VAR0, **fixed) if (li == 0 and fail_at is None) else draw_var(vr, **fixed)
+
         for st in pres:
             for opname in ("compress", "decompress", "scratch"):
                 if opname == "compress" and st["bin"] != "C":
@@ -479,18 +567,17 @@ def run(ctx):
                 if opname != "compress" and (st["cbin"] != "C" or st["ch"] != "C"):
                     continue
                 for keep in ([True, False] if opname != "scratch" else [True]):
-                    fail_at = None
-                    while True:
-                        t = one_call(world, d, st, opname, keep, fail_at)
-                        if t is None:
-                            break
-                        traces.append(t)
-                        ctx.count(1, key=(ns, opname, keep, fail_at, json.dumps(st, sort_keys=True)))
-                        fail_at = 0 if fail_at is None else fail_at + 1
-                        if fail_at > 40:
-                            raise tlc.TLCError("runaway fault enumeration")
-            traces.append(resolve_record(world, d, st))
-            ctx.count(1, key=(ns, "resolve", json.dumps(st, sort_keys=True)))
+                    nops = enumerate_faults(ctx, traces, world, d, st, opname, keep, mkvar)
+                    if not ctx.quick or vr.random() < (0.3 if li == 0 else 0.15):
+                        histories(ctx, traces, world, d, st, opname, keep, nops, vr, {})
+            if st["bin"] == "A":
+                # decompress_to_scratch() with the default scratch_dir=None: the copy is published next to the .cbin
+                nops = enumerate_faults(ctx, traces, world, d, st, "scratch", True, lambda fa: mkvar(fa, here=True))
+                if not ctx.quick or vr.random() < 0.3:
+                    histories(ctx, traces, world, d, st, "scratch", True, nops, vr, {"here": True})
+            for var in ([VAR0, draw_var(vr)] if li == 0 else [draw_var(vr)]):
+                traces.append(resolve_record(world, d, st, var))
+                ctx.count(1, key=(ns, "resolve", json.dumps(st, sort_keys=True), var["pathtype"], var["siblings"]))
         shutil.rmtree(d, ignore_errors=True)
     for t in traces:
         if t["exc"]:
@@ -503,7 +590,7 @@ def run(ctx):
     for t in traces[:2] + [x for x in traces if x["fail_at"] == 3][:1]:
         ctx.sample({"call": describe(t), "steps": [[s["pt"], "".join(f"{k}:{v} " for k, v in s["fs"].items() if v != "A")] for s in t["steps"]]})
     transparency(ctx, rng)
-    selftest(ctx, traces, {v["index"] for v in verdicts})
+    selftest(ctx, traces, {v["index"] for v in verdicts if v["prop"]})
     ctx.cov["rule"] = ("every initial directory of the model x call x keep_original x failure injected at every file operation of "
                        "the call (enumerated until the call has no further operation); distinct = distinct (length, call, keep, "
                        "fail point, directory)")
@@ -559,12 +646,14 @@ def transparency(ctx, rng):
                     key = "cbin:negative-step-sample-slice" if (s is not None and s < 0) else "cbin:slice"
                     ctx.violation(key, f"Reader(cbin)[{sel}] != Reader(bin)[{sel}] ns={ns} chunk={CHUNK}: shapes {gc.shape} vs {gb.shape}",
                                   {"ns": ns, "slice": [c["start"], c["stop"], c["step"]]})
+            n_eval += other_selectors(ctx, world, p, sb, sc, full, cs if not ctx.quick else cs[(ns + nsites) % 3::3])
             sb.close()
             sc.close()
             shutil.rmtree(d, ignore_errors=True)
     ctx.count(n_eval, key=("slices", len(cases)))
     ctx.cov["slice_cases"] = len(cases)
     uuid_names(ctx, rng)
+    default_arguments(ctx, rng)
     # byte identity compress -> decompress for many shapes (projection 'C' = identical bytes)
     import spikeglx as sg
     shapes = [(ns, nsites) for ns in ([1, 4, 5, 6, 11] if ctx.quick else list(range(1, 15))) for nsites in ([1, 4] if ctx.quick else [1, 2, 4, 17])]
@@ -590,6 +679,116 @@ def transparency(ctx, rng):
         shutil.rmtree(d, ignore_errors=True)
 
 
+def _same(x, y):
+    if isinstance(x, tuple) or isinstance(y, tuple):
+        return isinstance(x, tuple) and isinstance(y, tuple) and len(x) == len(y) and all(_same(a, b) for a, b in zip(x, y))
+    if x is None or y is None:
+        return x is None and y is None
+    x, y = np.asarray(x), np.asarray(y)
+    return x.shape == y.shape and x.dtype == y.dtype and np.array_equal(x, y)
+
+
+def other_selectors(ctx, world, p, sb, sc, full, cases):
+    """"same values for every selector": the other ways the reader is indexed, at the same sample-slice positions - one-argument
+    indexing, channel selectors of every kind, integer sample indices, read() with the sync traces, read_samples,
+    read_sync / read_sync_digital, the module function read().  Clause as for the plain slices: Reader(cbin) gives what
+    Reader(bin) gives (and, for the data part, what NumPy indexing of the whole array gives)."""
+    import spikeglx
+    nc, ns = world.nc, world.ns
+    csels = [slice(None), slice(1, 3), slice(None, None, -1), slice(None, None, 2), 0, -1, [nc - 1, 0],
+             np.array([1, 1, 0]), slice(nc - 1, None)]
+    forms = ["item1", "item2", "read_sync", "samples", "sync", "int", "func"]
+    n = 0
+    for j, c in enumerate(cases):
+        a, b, st = (None if x == 999 else x for x in (c["start"], c["stop"], c["step"]))
+        sel = slice(a, b, st)
+        rows = list(c["rows"])
+        form = forms[j % len(forms)]
+        csel = csels[(j // len(forms)) % len(csels)]
+        want = None         # NumPy semantics for the data part, where the form has one
+        if form == "item1":
+            call = lambda sr: sr[sel]                                   # noqa: E731
+            want = full[rows, :] if rows else full[:0, :]
+        elif form == "item2":
+            call = lambda sr: sr[sel, csel]                             # noqa: E731
+            want = (full[rows, :] if rows else full[:0, :])[:, csel]
+        elif form == "read_sync":
+            call = lambda sr: sr.read(nsel=sel, csel=csel, sync=True)   # noqa: E731
+            want = (full[rows, :] if rows else full[:0, :])[:, csel]
+        elif form == "samples":
+            if st is not None:
+                continue
+            call = lambda sr: sr.read_samples(first_sample=a, last_sample=b, channels=csel)     # noqa: E731
+            want = (full[rows, :] if rows else full[:0, :])[:, csel]
+        elif form == "sync":
+            call = lambda sr: (sr.read_sync(sel), sr.read_sync_digital(sel))        # noqa: E731
+        elif form == "int":
+            if a is None or not -ns <= a < ns:
+                continue
+            call = lambda sr: (sr[a], sr[a, csel], sr.read(nsel=a, csel=csel, sync=True)[1])    # noqa: E731
+            want = full[a]
+        else:
+            if st is not None or j % 5:
+                continue
+            call = lambda sr: spikeglx.read(str(sr.file_bin), first_sample=a, last_sample=b)[:2]   # noqa: E731
+            want = full[rows, :] if rows else full[:0, :]
+        n += 1
+        scen = {"ns": ns, "nsites": nc - 1, "slice": [c["start"], c["stop"], c["step"]], "form": form}
+        try:
+            gb, gc = call(sb), call(sc)
+        except Exception as e:
+            ctx.violation("compress:Transparent:raise", f"{form} {sel} csel={csel} ns={ns}: {type(e).__name__}: {e}", scen)
+            continue
+        if want is not None:
+            data_b = gb[0] if isinstance(gb, tuple) else gb
+            if not (data_b.shape == want.shape and np.array_equal(data_b, want)):
+                ctx.violation("bin:slice", f"Reader(bin) {form} {sel} csel={csel} ns={ns} differs from NumPy semantics: shape "
+                              f"{data_b.shape} vs {want.shape}", scen)
+        if not _same(gb, gc):
+            key = "cbin:negative-step-sample-slice" if (st is not None and st < 0 and form != "int") else "cbin:slice"
+            ctx.violation(key, f"Reader(cbin) {form} {sel} csel={csel} differs from Reader(bin) ns={ns} chunk={CHUNK}", scen)
+    return n
+
+
+def default_arguments(ctx, rng):
+    """the calls as the documentation shows them: compress_file() / decompress_file() with every keyword left at its default
+    (keep_original=True, mtscomp's own chunk length and thread count), and a multi-threaded multi-chunk compression"""
+    import spikeglx as sg
+    for ns, nsites, kw in ((11, 4, {}), (23, 3, dict(chunk_duration=CHUNK / 30000, n_threads=3)), (7, 384, {})):
+        world = World(Path(ctx.scratch) / f"k{ns}_{nsites}", ns, rng, nsites=nsites)
+        d = Path(ctx.scratch) / f"kdir{ns}_{nsites}"
+        st = {n: "A" for n in NAMES}
+        st.update({"bin": "C", "meta": "C"})
+        p = world.setup(d, st)
+        ctx.count(1, key=("defaults", ns, nsites, json.dumps(kw, sort_keys=True)))
+        scen = {"defaults": [ns, nsites]}
+        try:
+            sr = sg.Reader(p["bin"])
+            sr.compress_file(**kw)
+            sr.close()
+            one = world.project(d)
+            sc = sg.Reader(p["cbin"])
+            same = sc.shape == (ns, world.nc) and np.array_equal(sc[:, :], world.data.astype(np.float32) * sc.sample2volts[None, :])
+            sc.close()
+            p["bin"].unlink()
+            sc = sg.Reader(p["cbin"])
+            sc.decompress_file(**({k: v for k, v in kw.items() if k == "n_threads"}))
+            sc.close()
+            two = world.project(d)
+        except Exception as e:  # noqa
+            ctx.violation("compress:UnexpectedException", f"compress_file({kw}) / decompress_file() ns={ns} nc={nsites + 1}: "
+                          f"{type(e).__name__}: {e}", scen)
+            continue
+        # CompletedP with keep_original = TRUE: both forms present, both complete
+        if not (one["bin"] == "C" and one["cbin"] != "A" and one["ch"] != "A" and one["cbin_tmp"] == "A" and same):
+            ctx.violation("compress:Completed", f"compress_file({kw}) with keep_original left at its default, ns={ns} nc={nsites + 1}: "
+                          f"directory {one}, compressed file reads back {'the recording' if same else 'something else'}", scen)
+        if not (two["bin"] == "C" and two["cbin"] == one["cbin"] and two["ch"] == one["ch"]):
+            ctx.violation("compress:RoundTrip", f"compress_file({kw}) -> decompress_file() with defaults ns={ns} nc={nsites + 1}: "
+                          f"directory {one} then {two}", scen)
+        shutil.rmtree(d, ignore_errors=True)
+
+
 def uuid_names(ctx, rng):
     """companion lookup when the files carry dataset UUIDs in their names (each file its own UUID): the data file, the
     compressed file and the header must still find each other"""
@@ -608,14 +807,30 @@ def uuid_names(ctx, rng):
         dd = Path(ctx.scratch) / ("udir_" + "_".join(layout))
         shutil.rmtree(dd, ignore_errors=True)
         dd.mkdir(parents=True)
+        # the other band of the same probe (created first) and a second probe (created last) lie in the same directory
+        # (another recording: stale content), every file with a UUID of its own
+        def sibling(stem2):
+            for k in layout:
+                u2 = str(uuid.UUID(int=ur.getrandbits(128), version=4))
+                if k == "meta":
+                    (dd / f"{stem2}.{u2}.meta").write_text(world.other_meta_text)
+                elif k == "ch":
+                    (dd / f"{stem2}.{u2}.ch").write_text(json.dumps(world.ref["S"]["ch"], indent=2, sort_keys=True))
+                else:
+                    (dd / f"{stem2}.{u2}.{k}").write_bytes(world.ref["S"][k])
+        sibling(STEM.replace(".ap", ".lf"))
+        sibling(STEM.replace("imec0", "imec2"))
         for k in layout:
             shutil.copy(p[k], dd / names[k])
+        sibling(STEM.replace("imec0", "imec1"))
+        sibling(STEM.replace("imec0", "imec1").replace(".ap", ".lf"))
+        sibling(STEM.replace("_g0_", "_g1_"))       # (directory order is arbitrary: several, before and after)
         entry = dd / names[layout[0]]
         ctx.count(1, key=("uuid", layout))
         try:
             sr = spikeglx.Reader(entry)
-            same = sr.shape == (world.ns, world.nc) and np.array_equal(
-                sr[:, :], world.data.astype(np.float32) * sr.sample2volts[None, :])
+            same = sr.shape == (world.ns, world.nc) and np.array_equal(sr.sample2volts, world.s2v) and np.array_equal(
+                sr[:, :], world.data.astype(np.float32) * world.s2v[None, :])
             sr.close()
             if not same:
                 ctx.violation("compress:ResolveSame:uuid", f"Reader({entry.name}) with UUID-named companions {sorted(names[k] for k in layout)} "
@@ -624,27 +839,52 @@ def uuid_names(ctx, rng):
             ctx.violation("compress:ResolveSame:uuid", f"Reader({entry.name}) with UUID-named companions raised {type(e).__name__}: {e}",
                           {"uuid_layout": list(layout)})
         shutil.rmtree(dd, ignore_errors=True)
+    # the companions named by the caller (meta_file=, ch_file=): header and metadata kept in another directory
+    dx, dy = Path(ctx.scratch) / "udir_data.cbin", Path(ctx.scratch) / "udir_companions"
+    for q in (dx, dy):
+        shutil.rmtree(q, ignore_errors=True)
+        q.mkdir(parents=True)
+    shutil.copy(p["cbin"], dx / p["cbin"].name)
+    shutil.copy(p["ch"], dy / p["ch"].name)
+    shutil.copy(p["meta"], dy / p["meta"].name)
+    ctx.count(1, key=("explicit-companions",))
+    try:
+        sr = spikeglx.Reader(dx / p["cbin"].name, meta_file=dy / p["meta"].name, ch_file=dy / p["ch"].name)
+        same = sr.shape == (world.ns, world.nc) and np.array_equal(
+            sr[:, :], world.data.astype(np.float32) * sr.sample2volts[None, :])
+        sr.close()
+        if not same:
+            ctx.violation("compress:ResolveSame:explicit", "Reader(cbin, meta_file=, ch_file=) with the companions in another "
+                          "directory does not expose the recording", {"explicit_companions": True})
+    except Exception as e:  # noqa
+        ctx.violation("compress:ResolveSame:explicit", f"Reader(cbin, meta_file=, ch_file=) with the companions in another directory "
+                      f"raised {type(e).__name__}: {e}", {"explicit_companions": True})
+    shutil.rmtree(dx, ignore_errors=True)
+    shutil.rmtree(dy, ignore_errors=True)
     shutil.rmtree(d, ignore_errors=True)
 
 
 def selftest(ctx, traces, bad):
+    # accepted by the property layer (drifting traces serve as well: the corruption is made on the observed directories,
+    # located by what they show, not by the names of the file operations)
     good = [i for i, t in enumerate(traces) if i not in bad and t["op"] == "compress" and t["fail_at"] is None
-            and not t["keep"] and t["ns"] == 12][:4]
+            and not t["keep"] and t["ns"] == 12 and not t["var"]["prior"] and not t["exc"]
+            and any(s["fs"]["cbin_tmp"] == "C" for s in t["steps"]) and any(s["fs"]["cbin_tmp"] == "P" for s in t["steps"][:-1])][:4]
     if len(good) < 2:
         raise tlc.TLCError("selftest: no accepted compress traces")
     mut = []
     for j, i in enumerate(good):
         t = copy.deepcopy(traces[i])
-        labs = [s["pt"] for s in t["steps"]]
         if j % 2 == 0:
-            # source removed before the rename: swap the observed effect order
-            k = labs.index("rename")
+            # source removed before the publication: from the last directory in which the temporary file is still there
+            # and complete (the one the publishing operation starts from) the source is gone and nothing carries the final name
+            k = max(q for q, s in enumerate(t["steps"]) if s["fs"]["cbin_tmp"] == "C")
             for s in t["steps"][k:]:
                 s["fs"]["bin"] = "A"
             t["steps"][k]["fs"]["cbin"] = "A"
         else:
             # final name carries a partial file while chunks are written
-            k = labs.index("cchunk")
+            k = min(q for q, s in enumerate(t["steps"][:-1]) if s["fs"]["cbin_tmp"] == "P")
             t["steps"][k + 1]["fs"]["cbin"] = "P"
         mut.append(t)
     keep = ctx.cov["traces_validated_against_impl"]
@@ -662,7 +902,8 @@ def replay(ctx, sc):
         t = sc["trace"]
         world = World(Path(ctx.scratch) / "w", t["ns"], rng)
         d = Path(ctx.scratch) / "dir"
-        tr = resolve_record(world, d, t["pre"]) if t["op"] == "resolve" else one_call(world, d, t["pre"], t["op"], t["keep"], t["fail_at"])
+        tr = (resolve_record(world, d, t["pre"], t.get("var")) if t["op"] == "resolve"
+              else one_call(world, d, t["pre"], t["op"], t["keep"], t["fail_at"], t.get("var")))
         if tr is None:
             return
         if tr["exc"]:
